@@ -395,7 +395,13 @@ impl<'i> VariableValidator<'i> {
     }
 
     pub(super) fn met_ap(&mut self, ap: &Ap<'i>, span: Span) {
-        match &ap.argument {
+        self.met_ap_argument(&ap.argument, span);
+        self.met_variable_name_definition(ap.result.name(), span);
+        self.met_simple_instr(span);
+    }
+
+    fn met_ap_argument(&mut self, argument: &ApArgument<'i>, span: Span) {
+        match argument {
             ApArgument::Number(_)
             | ApArgument::Timestamp
             | ApArgument::TTL
@@ -418,13 +424,12 @@ impl<'i> VariableValidator<'i> {
                 self.met_canon_stream_map_wl(canon_stream_map, span)
             }
         }
-        self.met_variable_name_definition(ap.result.name(), span);
-        self.met_simple_instr(span);
     }
 
     pub(super) fn met_ap_map(&mut self, ap_map: &ApMap<'i>, span: Span) {
         let key = &ap_map.key;
         self.met_map_key(key, span);
+        self.met_ap_argument(&ap_map.value, span);
         self.met_variable_name_definition(ap_map.map.name, span);
         self.met_simple_instr(span);
     }
